@@ -1809,14 +1809,17 @@ class CodeGenerator(NodeVisitor):
                 self.write("))")
 
     def visit_Slice(self, node: nodes.Slice, frame: Frame) -> None:
-        if node.start is not None:
-            self.visit(node.start, frame)
-        self.write(":")
-        if node.stop is not None:
-            self.visit(node.stop, frame)
-        if node.step is not None:
-            self.write(":")
-            self.visit(node.step, frame)
+        # A slice object instead of slice syntax, which is only valid
+        # directly inside a subscript and not in a tuple argument.
+        self.write("slice(")
+        for idx, item in enumerate((node.start, node.stop, node.step)):
+            if idx:
+                self.write(", ")
+            if item is None:
+                self.write("None")
+            else:
+                self.visit(item, frame)
+        self.write(")")
 
     @contextmanager
     def _filter_test_common(
